@@ -750,7 +750,8 @@ class _ARM64_ELF(ABI):
         return ".L"
 
     def default_dwarf_eh_return_column(self) -> int:
-        return 32
+        # The link register, x30.
+        return 30
 
     def _sym_expr_rules(
         self, module: gtirb.Module
@@ -881,7 +882,8 @@ class _MIPS32_ELF(ABI):
         return ".L"
 
     def default_dwarf_eh_return_column(self) -> int:
-        return 32
+        # The return address register, $ra.
+        return 31
 
     def _sym_expr_rules(
         self, module: gtirb.Module
